@@ -62,6 +62,122 @@ def angle_of(dy, dx):
     return a % (2 * math.pi)
 
 
+def _is_phase(g):
+    """a phase split off a kernel: a jit function that allocates arrays and hands them back as a tuple - executed in place"""
+    return g.jit is not None and any(isinstance(n, ast.Return) and isinstance(n.value, ast.Tuple) for n in g.own_nodes()) and \
+        any(isinstance(n, ast.Call) and isinstance(n.func, ast.Attribute) and n.func.attr in (
+            'zeros', 'ones', 'full', 'empty', 'zeros_like', 'ones_like', 'full_like', 'empty_like') for n in g.own_nodes())
+
+
+class Roles:
+    """parameter roles of the geometry helpers, read off how the sweep kernel calls them: which parameter receives the
+    event's row / column, the viewpoint row / column / elevation, the two resolutions, the event type, the node's
+    distance key - and the one left over, the elevation.  Names and positions of the parameters do not matter."""
+    def __init__(self):
+        self.maps = {}
+        self.sites = {}
+
+    def learn(self, k, cls):
+        for rec in getattr(k, 'inlined', []):
+            h, args, kws = rec[0], rec[1], rec[2]
+            bound = dict(zip(h.params, args))
+            bound.update(kws or {})
+            if set(bound) != set(h.params):
+                continue
+            roles = {p_: cls(v_) for p_, v_ in bound.items()}
+            unk = [p_ for p_, r_ in roles.items() if r_ is None]
+            known = [r_ for r_ in roles.values() if r_ is not None]
+            if len(unk) <= 1 and len(set(known)) == len(known):
+                mp = {r_: p_ for p_, r_ in roles.items() if r_}
+                if unk:
+                    mp['elev'] = unk[0]
+                self.sites.setdefault(h.name, []).append((tuple(sorted(mp.items())), rec[4]))
+
+    def finish(self):
+        for h, lst in self.sites.items():
+            count = {}
+            for key_, node in lst:
+                count[key_] = count.get(key_, 0) + 1
+            best = sorted(count.items(), key=lambda kv: -kv[1])
+            if len(best) > 1 and best[0][1] == best[1][1]:
+                continue        # no majority: the roles stay unknown
+            self.maps[h] = dict(best[0][0])
+
+    def param(self, h, role, default_index):
+        """the parameter of helper h (a Func) playing `role`; the reference position when the calls do not tell"""
+        mp = self.maps.get(h.name)
+        if mp and role in mp:
+            return mp[role]
+        return h.params[default_index] if default_index < len(h.params) else None
+
+    def call(self, h, **vals):
+        """spec text of a call of helper h with the given role -> expression text arguments"""
+        mp = self.maps.get(h.name)
+        if not mp or any(r_ not in mp for r_ in vals):
+            raise AnalysisIncomplete('parameter roles of %s could not be read off its calls in the sweep' % h.name)
+        return '%s(%s)' % (h.name, ', '.join('%s=%s' % (mp[r_], t_) for r_, t_ in vals.items()))
+
+    def deviating(self, h):
+        mp = self.maps.get(h.name)
+        if mp is None:
+            return []
+        want = tuple(sorted(mp.items()))
+        return [node for key_, node in self.sites.get(h.name, []) if key_ != want]
+
+
+def sweep_roles(prog, m):
+    if getattr(prog, '_c05_roles', None) is not None:
+        return prog._c05_roles
+    f = m.funcs.get('_viewshed_cpu_sweep')
+    if f is None:
+        raise AnalysisIncomplete('_viewshed_cpu_sweep not found')
+    k = interpret(prog, f, strict=False, inline_all=_is_phase)
+    C = {n: const(v[0]) for n, v in m.assigns.items() if len(v) == 1 and isinstance(const(v[0]), (int, float))}
+    P = f.params
+    roles = Roles()
+    if len(P) >= 11 and all(n in C for n in ('E_ROW_ID', 'E_COL_ID', 'E_TYPE_ID', 'TN_KEY_ID')):
+        raster, vp_row, vp_col, vp_elev, vp_target, ew_res, ns_res, rcts, aes, data, grid = P[:11]
+        syms = {vp_row: 'vrow', vp_col: 'vcol', vp_elev: 'velev', ew_res: 'ew', ns_res: 'ns'}
+
+        def is_read(a, arr, col):
+            return isinstance(a, App) and a.name in ('read', 'cell?') and a.args[0] == arr and a.args[-1] == Rat.const(C[col])
+
+        def cls(v):
+            if isinstance(v, tuple) and len(v) == 2 and v[0] == 'param':
+                return syms.get(v[1])
+            if not isinstance(v, Rat):
+                return None
+            if v.is_const():
+                return 'etype'
+            for nm, role in syms.items():
+                if v == Rat.sym(nm):
+                    return role
+            one = _one(v)
+            if one is not None and one.name in ('read', 'cell?') and len(one.args) >= 2 and one.args[0] not in (rcts, aes, data, raster) and \
+                    one.args[1] == Rat.const(C['TN_KEY_ID']):
+                return 'key'
+            ats = list(walk_atoms(v))
+            if one is not None and is_read(one, rcts, 'E_TYPE_ID'):
+                return 'etype'
+            hasr = [a for a in ats if is_read(a, rcts, 'E_ROW_ID')]
+            hasc = [a for a in ats if is_read(a, rcts, 'E_COL_ID')]
+            if hasr and not hasc:
+                return 'row'
+            if hasc and not hasr:
+                return 'col'
+            # an event position: the row (column) plus a constant offset on every branch
+            from ..kutil import value_cases
+            leaves = [v_ for c_, v_ in value_cases(v)]
+            for role, cand in (('row', hasr), ('col', hasc)):
+                if len(set(cand)) == 1 and leaves and all(isinstance(l_, Rat) and (l_ - Rat.atom(cand[0])).is_const() for l_ in leaves):
+                    return role
+            return None
+        roles.learn(k, cls)
+        roles.finish()
+    prog._c05_roles = roles
+    return roles
+
+
 def check_tables(prog, rep, m):
     entry = 'viewshed events'
     fpos = m.funcs.get('_calc_event_pos')
@@ -70,6 +186,11 @@ def check_tables(prog, rep, m):
     if fpos is None or frc is None or fang is None:
         raise AnalysisIncomplete('viewshed event helpers not found')
     kpos, krc, kang = interpret(prog, fpos), interpret(prog, frc), interpret(prog, fang)
+    roles = sweep_roles(prog, m)
+    PP = [roles.param(fpos, r_, n_) for n_, r_ in enumerate(('etype', 'row', 'col', 'vrow', 'vcol'))]
+    PA = [roles.param(fang, r_, n_) for n_, r_ in enumerate(('col', 'row', 'vcol', 'vrow'))]
+    if len(set(PP)) != 5 or len(set(PA)) != 4:
+        raise AnalysisIncomplete('parameter roles of the event helpers are ambiguous')
     ENTER = const(m.assigns['ENTERING_EVENT'][0])
     EXIT = const(m.assigns['EXITING_EVENT'][0])
     CENTER = const(m.assigns['CENTER_EVENT'][0])
@@ -80,8 +201,7 @@ def check_tables(prog, rep, m):
     for (sr, sc) in SECTORS:
         er, ec = vp[0] + 3 * sr, vp[1] + 3 * sc
         for et, label in ((ENTER, 'ENTER'), (EXIT, 'EXIT')):
-            env = {Sym(fpos.params[0]): Fraction(et), Sym(fpos.params[1]): er, Sym(fpos.params[2]): ec,
-                   Sym(fpos.params[3]): vp[0], Sym(fpos.params[4]): vp[1]}
+            env = {Sym(PP[0]): Fraction(et), Sym(PP[1]): er, Sym(PP[2]): ec, Sym(PP[3]): vp[0], Sym(PP[4]): vp[1]}
             pos = eval_returns(kpos, dict(env))
             env2 = {Sym(frc.params[0]): Fraction(et), Sym(frc.params[1]): er, Sym(frc.params[2]): ec,
                     Sym(frc.params[3]): vp[0], Sym(frc.params[4]): vp[1]}
@@ -112,8 +232,7 @@ def check_tables(prog, rep, m):
                     fpos.node.lineno, ok2, 'a cell enters the sweep at its first corner and leaves at its last corner in '
                     'the sweep order (counter-clockwise from the positive x axis, rows growing downwards)')
     # CENTER events sit on the cell itself
-    env = {Sym(fpos.params[0]): Fraction(CENTER), Sym(fpos.params[1]): Fraction(7), Sym(fpos.params[2]): Fraction(13),
-           Sym(fpos.params[3]): vp[0], Sym(fpos.params[4]): vp[1]}
+    env = {Sym(PP[0]): Fraction(CENTER), Sym(PP[1]): Fraction(7), Sym(PP[2]): Fraction(13), Sym(PP[3]): vp[0], Sym(PP[4]): vp[1]}
     pos = eval_returns(kpos, env)
     rep.add('T1', fpos, entry, 'CENTER event position %s' % (pos,), fpos.node.lineno, pos == [Fraction(7), Fraction(13)],
             'the centre event lies on the cell centre')
@@ -121,7 +240,7 @@ def check_tables(prog, rep, m):
     bad = []
     n = 0
     for (dy, dx) in [(0, 1), (-1, 1), (-1, 0), (-1, -1), (0, -1), (1, -1), (1, 0), (1, 1), (-2, 5), (3, -7), (Fraction(-5, 2), Fraction(7, 2))]:
-        env = {Sym(fang.params[0]): vp[1] + dx, Sym(fang.params[1]): vp[0] + dy, Sym(fang.params[2]): vp[1], Sym(fang.params[3]): vp[0]}
+        env = {Sym(PA[0]): vp[1] + dx, Sym(PA[1]): vp[0] + dy, Sym(PA[2]): vp[1], Sym(PA[3]): vp[0]}
         got = eval_returns(kang, env)
         want = angle_of(dy, dx)
         n += 1
@@ -137,14 +256,17 @@ def check_tables(prog, rep, m):
         for c in calls(f.node):
             if c in f.own_nodes() and short(c) == '_calculate_angle':
                 nsites += 1
-                if [T(a) for a in c.args] != ['ax', 'ay', 'vp_col', 'vp_row']:
+                b_ = dict(zip(fang.params, [T(a) for a in c.args]))
+                b_.update({kw_.arg: T(kw_.value) for kw_ in c.keywords if kw_.arg})
+                if [b_.get(p_) for p_ in PA] != ['ax', 'ay', 'vp_col', 'vp_row']:
                     okc = False
             if c in f.own_nodes() and short(c) == '_calc_event_pos':
                 p = pm_assign_target(f, c)
                 if p is not None and p != ['ay', 'ax']:
                     okc = False
     rep.add('T3', m, entry, '%d angle call sites pass (ax, ay, vp_col, vp_row); positions unpacked as (ay, ax)' % nsites, 1,
-            okc and nsites >= 6, 'x is the column coordinate and y the row coordinate at every call site')
+            okc and nsites >= 6 and not roles.deviating(fang) and not roles.deviating(fpos),
+            'x is the column coordinate and y the row coordinate at every call site')
 
 
 def pm_assign_target(f, call):
@@ -258,7 +380,8 @@ def check_encoding(prog, rep, m):
     # _get_vertical_ang branches
     f = m.funcs.get('_get_vertical_ang')
     k = interpret(prog, f)
-    ve, d2, el = [Sym(p) for p in f.params[:3]]
+    roles = sweep_roles(prog, m)
+    ve, d2, el = [Sym(roles.param(f, r_, n_)) for n_, r_ in enumerate(('velev', 'key', 'elev'))]
     bad = []
     n = 0
     for (dv, dist2) in [(0, 4), (3, 16), (-3, 16), (Fraction(1, 2), 100), (-50, 1), (50, 1)]:
@@ -284,7 +407,12 @@ def check_gradient(prog, rep, m, f, entry):
     if len(P) != 8 or len(k.returns) != 1:
         rep.add('T6', f, entry, '%s' % f.name, f.node.lineno, None, 'expected 8 parameters and one return')
         return
-    row, col, elev, vrow, vcol, velev, ew, ns = [Rat.sym(p) for p in P]
+    roles = sweep_roles(prog, m)
+    RP = [roles.param(f, r_, n_) for n_, r_ in enumerate(('row', 'col', 'elev', 'vrow', 'vcol', 'velev', 'ew', 'ns'))]
+    if len(set(RP)) != 8:
+        rep.add('T6', f, entry, '%s' % f.name, f.node.lineno, None, 'parameter roles ambiguous: %s' % RP)
+        return
+    row, col, elev, vrow, vcol, velev, ew, ns = [Rat.sym(p) for p in RP]
     sp = Spec(prog, {})
     D = ((col - vcol) * ew) * ((col - vcol) * ew) + ((row - vrow) * ns) * ((row - vrow) * ns)
     want = sp.it.app('arctan', [(elev - velev) / sp.it.app('sqrt', [D])])
@@ -508,7 +636,7 @@ def check_sweep_skeleton(prog, rep, m):
     f = m.funcs.get('_viewshed_cpu_sweep')
     if f is None:
         raise AnalysisIncomplete('_viewshed_cpu_sweep not found')
-    k = interpret(prog, f, strict=False)
+    k = interpret(prog, f, strict=False, inline_all=_is_phase)
     C = {n: const(v[0]) for n, v in m.assigns.items() if len(v) == 1 and isinstance(const(v[0]), (int, float))}
     need = ['ENTERING_EVENT', 'EXITING_EVENT', 'CENTER_EVENT', 'E_ROW_ID', 'E_COL_ID', 'E_TYPE_ID', 'AE_ANG_ID', 'AE_ELEV_0', 'AE_ELEV_1',
             'AE_ELEV_2', 'TN_KEY_ID', 'TN_GRAD_0', 'TN_GRAD_1', 'TN_GRAD_2', 'TN_ANG_0', 'TN_ANG_1', 'TN_ANG_2']
@@ -518,6 +646,7 @@ def check_sweep_skeleton(prog, rep, m):
     if len(P) < 11:
         raise AnalysisIncomplete('_viewshed_cpu_sweep: unexpected signature')
     raster, vp_row, vp_col, vp_elev, vp_target, ew_res, ns_res, rcts, aes, data, grid = P[:11]
+    roles = sweep_roles(prog, m)
     ev = k.events
     # the event loop: over all events
     Le = None
@@ -549,18 +678,22 @@ def check_sweep_skeleton(prog, rep, m):
         for p in (vp_row, vp_col, vp_elev, vp_target, ew_res, ns_res):
             env[p] = Rat.sym(p)
         sp = Spec(prog, env, m)
-        sp.run("""
-ay0, ax0 = _calc_event_pos(ENTERING_EVENT, R__, C__, %(vr)s, %(vc)s)
-A0 = _calculate_angle(ax0, ay0, %(vc)s, %(vr)s)
-G0 = _calc_event_grad(ay0, ax0, E0__, %(vr)s, %(vc)s, %(ve)s, %(ew)s, %(ns)s)
-ay1, ax1 = _calc_event_pos(CENTER_EVENT, R__, C__, %(vr)s, %(vc)s)
-A1 = _calculate_angle(ax1, ay1, %(vc)s, %(vr)s)
-K1, G1 = _calc_dist_n_grad(R__, C__, E1__, %(vr)s, %(vc)s, %(ve)s, %(ew)s, %(ns)s)
-ay2, ax2 = _calc_event_pos(EXITING_EVENT, R__, C__, %(vr)s, %(vc)s)
-A2 = _calculate_angle(ax2, ay2, %(vc)s, %(vr)s)
-G2 = _calc_event_grad(ay2, ax2, E2__, %(vr)s, %(vc)s, %(ve)s, %(ew)s, %(ns)s)
-KT, GT = _calc_dist_n_grad(R__, C__, E1__ + %(vt)s, %(vr)s, %(vc)s, %(ve)s, %(ew)s, %(ns)s)
-""" % dict(vr=vp_row, vc=vp_col, ve=vp_elev, ew=ew_res, ns=ns_res, vt=vp_target))
+        H = {n_: m.funcs.get(n_) for n_ in ('_calc_event_pos', '_calculate_angle', '_calc_event_grad', '_calc_dist_n_grad')}
+        if any(v_ is None for v_ in H.values()):
+            raise AnalysisIncomplete('viewshed geometry helpers not found')
+        vr, vc, ve_, ew_, ns_, vt = vp_row, vp_col, vp_elev, ew_res, ns_res, vp_target
+        lines = []
+        for n_, et_, el_ in ((0, 'ENTERING_EVENT', 'E0__'), (1, 'CENTER_EVENT', 'E1__'), (2, 'EXITING_EVENT', 'E2__')):
+            lines.append('ay%d, ax%d = %s' % (n_, n_, roles.call(H['_calc_event_pos'], etype=et_, row='R__', col='C__', vrow=vr, vcol=vc)))
+            lines.append('A%d = %s' % (n_, roles.call(H['_calculate_angle'], col='ax%d' % n_, row='ay%d' % n_, vcol=vc, vrow=vr)))
+            if n_ == 1:
+                lines.append('K1, G1 = %s' % roles.call(H['_calc_dist_n_grad'], row='R__', col='C__', elev=el_, vrow=vr, vcol=vc, velev=ve_, ew=ew_, ns=ns_))
+            else:
+                lines.append('G%d = %s' % (n_, roles.call(H['_calc_event_grad'], row='ay%d' % n_, col='ax%d' % n_, elev=el_, vrow=vr, vcol=vc,
+                                                          velev=ve_, ew=ew_, ns=ns_)))
+        lines.append('KT, GT = %s' % roles.call(H['_calc_dist_n_grad'], row='R__', col='C__', elev='E1__ + %s' % vt, vrow=vr, vcol=vc, velev=ve_,
+                                                ew=ew_, ns=ns_))
+        sp.run('\n'.join(lines) + '\n')
         return {n: sp.it.as_scalar(sp[n]) for n in ('A0', 'G0', 'A1', 'K1', 'G1', 'A2', 'G2', 'KT', 'GT')}
     try:
         X = expected(rc('E_ROW_ID'), rc('E_COL_ID'), ae('AE_ELEV_0'), ae('AE_ELEV_1'), ae('AE_ELEV_2'))
@@ -718,7 +851,7 @@ KT, GT = _calc_dist_n_grad(R__, C__, E1__ + %(vt)s, %(vr)s, %(vc)s, %(ve)s, %(ew
             okva = False
             if len(keys) == 1 and keys[0].args[1] == Rat.const(C['TN_KEY_ID']):
                 sp = Spec(prog, {'K__': Rat.atom(keys[0]), 'E1__': ae('AE_ELEV_1'), vp_elev: Rat.sym(vp_elev), vp_target: Rat.sym(vp_target)}, m)
-                okva = sp.it.as_scalar(sp.expr('_get_vertical_ang(%s, K__, E1__ + %s)' % (vp_elev, vp_target))) == va[3]
+                okva = sp.it.as_scalar(sp.expr(roles.call(m.funcs['_get_vertical_ang'], velev=vp_elev, key='K__', elev='E1__ + %s' % vp_target))) == va[3]
             okargs = len(va) == 4 and _param_name(va[0]) == grid and va[1] == rc('E_ROW_ID') and va[2] == rc('E_COL_ID')
             okvis = okg and okva and okargs and under(c[2], CENTER) and not under(c[2], ENTER) and not under(c[2], EXIT)
             whyv = 'condition %s, vertical angle %s, (grid, row, col) %s' % (okg, okva, okargs)
